@@ -201,7 +201,10 @@ func (e *Encoder) encodeCommitData(hashes []plumbing.Hash, hashToIndex map[plumb
 			return extraEdges, generationV2Data, err
 		}
 
-		unixTime := uint64(commitData.When.Unix())
+		// The commit time field is 34 bits wide; like git, keep only those
+		// bits so that a far-future or pre-1970 time cannot leak into the
+		// generation number stored above them.
+		unixTime := uint64(commitData.When.Unix()) & 0x3FFFFFFFF
 		unixTime |= uint64(commitData.Generation) << 34
 		if err = binary.WriteUint64(e, unixTime); err != nil {
 			return extraEdges, generationV2Data, err
